@@ -207,8 +207,14 @@ func TestVerif_C06_Bookkeeping(t *testing.T) {
 					fail("C06/remotes/filtered-address-admitted", "remote %s (%s) is rejected by the remote IP filter", r, r.Type())
 				}
 				for j := 0; j < i; j++ {
-					if v.remotes[j].Equal(r) {
+					o := v.remotes[j]
+					if o.Equal(r) {
 						fail("C06/remotes/duplicate", "remote %s listed twice", r)
+					}
+					// the same candidate written differently (IPv6 text forms) is still the same candidate
+					if o.NetworkType() == r.NetworkType() && o.Type() == r.Type() && o.addrPort() == r.addrPort() && o.addrPort().IsValid() &&
+						o.RelatedAddress().Equal(r.RelatedAddress()) && o.TCPType() == r.TCPType() {
+						fail("C06/remotes/duplicate-by-transport-address", "remote %s and %s are the same candidate (same type and transport address) listed twice", o, r)
 					}
 				}
 			}
@@ -286,6 +292,12 @@ func TestVerif_C06_Bookkeeping(t *testing.T) {
 				spec := epSpecs[ei]
 				spec.Typ = typ
 				spec.Prio = rapid.SampledFrom([]uint32{0, 5, 2130706431}).Draw(rt, "rprio")
+				if spec.V6 {
+					spec.Text = rapid.SampledFrom([]int{0, 0, 1, 2}).Draw(rt, "addressText")
+					if spec.Text != 0 {
+						lbl["non-canonical-address-text"] = true
+					}
+				}
 				cand := s.epCandidate(ei, spec)
 				addr := s.eps[ei].pub
 				// supersession bookkeeping: remember what the affected pairs looked like
